@@ -11,9 +11,9 @@ Restricted theorems (`_partial`) and what is missing:
   without a repeated `signed`/`unsigned`.  chibicc accepts `signed signed int` (`counter |= SIGNED`) and the empty
   sequence (implicit int); the lead classed this as latitude (C08 quantifies over *valid* combinations).  The full
   statement `C08_specifiers_reject_Statement` is refuted in Findings/C08.lean.
-* `C08_layout_partial` — model = spec outside the three known-finding regions (all inside `packed`):
-  `PackedWithBitfield`, `PackedWithMemberAlign`, `PackedUnionBitfield`.  The full statement `C08_layout_Statement`
-  is refuted in Findings/C08.lean by the listed witnesses.
+* `C08_layout_partial`, `C08_types_partial` — model = spec outside the three known-finding regions (all inside `packed`):
+  `PackedWithBitfield`, `PackedWithMemberAlign`, `PackedUnionBitfield`.  The full statements `C08_layout_Statement`,
+  `C08_types_Statement` are refuted in Findings/C08.lean by the listed witnesses.
 All layout theorems model C `int` by unbounded `Int` (aggregates below 256 MiB: no overflow of the bit counter).
 -/
 import ChibiVerif.Model.Layout
@@ -144,5 +144,66 @@ example :
     (∀ m ∈ ms, m.WF) ∧ PackedWithMemberAlign true ms = false ∧ PackedWithBitfield true ms = false ∧
     specStruct true (some 2) ms = ⟨12, 2, [⟨0, 0, 0⟩, ⟨8, 1, 0⟩, ⟨96, 0, 0⟩]⟩ := by
   decide
+
+/-! ## whole types: nested and anonymous aggregates, arrays, pointers, flexible array members -/
+
+/-- full statement for type descriptions (`Ty`: scalars, enum, pointers, arrays, flexible last member, struct/union with
+    `packed`/`aligned(n)`, members with `_Alignas`, bit-fields, names or none, nested to any depth): every well-formed
+    description (`Ty.ok false`: C11's constraints on bit-fields, positive `aligned`, non-negative numbers) gets the psABI
+    layout.  False inside `packed` (the same three regions). -/
+def C08_types_Statement : Prop :=
+  ∀ t : Ty, t.ok false = true → t.layout = .ok (specTy t).toLayout
+
+/-- **C08 (whole types; partial).**  For every well-formed type description all of whose aggregates — at every nesting
+    depth — lie outside the three known-finding regions (`Ty.ok true`), the model of `declarator`/`struct_members`/
+    `struct_decl`/`union_decl`/`array_of`/`pointer_to` computes exactly the specification's size, alignment, member
+    offsets and bit-field positions, and never divides by zero. -/
+theorem C08_types_partial (t : Ty) (h : t.ok true = true) : t.layout = .ok (specTy t).toLayout :=
+  layout_eq t h
+
+-- non-vacuity: struct { char a; struct { long x; int y : 5; int : 0; char z[3]; }; union { short s; long double d; } u; int *p[2]; char f[]; }
+example :
+    let inner : Ty := .struct false none (.cons ⟨0, none, true⟩ (.prim .long) (.cons ⟨0, some 5, true⟩ (.prim .int)
+      (.cons ⟨0, some 0, false⟩ (.prim .int) (.cons ⟨0, none, true⟩ (.arr (.prim .char) 3) .nil))))
+    let u : Ty := .union false none (.cons ⟨0, none, true⟩ (.prim .short) (.cons ⟨0, none, true⟩ (.prim .ldouble) .nil))
+    let t : Ty := .struct false none (.cons ⟨0, none, true⟩ (.prim .char) (.cons ⟨0, none, false⟩ inner
+      (.cons ⟨0, none, true⟩ u (.cons ⟨0, none, true⟩ (.arr .ptr 2) (.cons ⟨0, none, true⟩ (.flex (.prim .char)) .nil)))))
+    t.ok true = true ∧ specTy t = ⟨64, 16, [⟨0, 0, 0⟩, ⟨64, 8, 0⟩, ⟨256, 32, 0⟩, ⟨384, 48, 0⟩, ⟨512, 64, 0⟩]⟩ := by
+  decide
+
+/-! ## what the allocation rule guarantees (the psABI wording, as consequences) -/
+
+/-- **C08 (allocation rule).**  For one member of a struct that is not packed, placed when the first free bit is `cur`:
+    it starts at or after `cur` and the cursor moves past it; a member that is not a bit-field starts at the *least*
+    offset ≥ `cur` that is a multiple of its alignment; a zero-width bit-field moves the cursor to the least unit boundary;
+    a bit-field of width `w > 0` lies inside *one* naturally aligned storage unit of its declared type
+    (`start / unit = (start + w - 1) / unit`), at the next free bit if it fits there and otherwise at the next boundary. -/
+theorem C08_allocation_rule (cur : Nat) (m : SMem) (hwf : m.WF) :
+    cur ≤ (allocate false cur m).1 ∧ (allocate false cur m).2 = (allocate false cur m).1 + m.bits ∧
+    (m.bitWidth = none → LeastAligned (8 * m.reqAlign false) cur (allocate false cur m).1) ∧
+    (m.bitWidth = some 0 → LeastAligned (8 * m.size) cur (allocate false cur m).1) ∧
+    (∀ w, m.bitWidth = some w → 0 < w →
+      (allocate false cur m).1 / (8 * m.size) = ((allocate false cur m).1 + w - 1) / (8 * m.size) ∧
+      ((cur % (8 * m.size) + w ≤ 8 * m.size ∧ (allocate false cur m).1 = cur) ∨
+       (¬ cur % (8 * m.size) + w ≤ 8 * m.size ∧ LeastAligned (8 * m.size) cur (allocate false cur m).1))) :=
+  allocate_sound cur m hwf
+
+/-- **C08 (struct invariants).**  In the layout that `struct_decl` computes for a struct that is not packed
+    (by `C08_layout_partial` it is `specStruct`): the members lie in declaration order and are pairwise disjoint
+    (`InOrder`: each starts at or after the end of its predecessor); `sizeof` is a multiple of `_Alignof`, covers the last
+    member and is the least such; `_Alignof` is at least the alignment of every member that contributes (everything except
+    unnamed bit-fields) and at least `aligned(n)`. -/
+theorem C08_struct_invariants (aligned : Option Nat) (ms : List SMem)
+    (hal : ∀ n, aligned = some n → 0 < n) (hwf : ∀ m ∈ ms, m.WF) :
+    InOrder 0 ms (specStruct false aligned ms).placed (allocateAll false 0 ms).1 ∧
+    (specStruct false aligned ms).align ∣ (specStruct false aligned ms).size ∧
+    (allocateAll false 0 ms).1 ≤ 8 * (specStruct false aligned ms).size ∧
+    8 * (specStruct false aligned ms).size < (allocateAll false 0 ms).1 + 8 * (specStruct false aligned ms).align ∧
+    (∀ m ∈ ms, m.contrib false ≤ (specStruct false aligned ms).align) ∧
+    (∀ n, aligned = some n → n ≤ (specStruct false aligned ms).align) := by
+  have h := specStruct_size aligned ms hal
+  exact ⟨allocateAll_inOrder ms 0 hwf, h.1, h.2.1, h.2.2.1, h.2.2.2.1, h.2.2.2.2⟩
+
+-- non-vacuity of the hypotheses: see the examples under `C08_layout_unpacked`
 
 end ChibiVerif.Props.C08
